@@ -1415,6 +1415,10 @@ func parsePublicKey(algo PublicKeyAlgorithm, keyData *publicKeyInfo) (interface{
 		if len(p) > ed25519.PublicKeySize {
 			return nil, errors.New("x509: trailing data after Ed25519 data")
 		}
+		if len(p) < ed25519.PublicKeySize {
+			// ed25519.Verify panics on a key of the wrong length.
+			return nil, errors.New("x509: Ed25519 public key is too short")
+		}
 		return p, nil
 	case X25519:
 		p := X25519PublicKey(asn1Data)
